@@ -749,7 +749,27 @@ class Engine:
         return T("s", z3.Concat(*parts))
 
     def ev_Await(self, e, ec):
-        return self.ev(e.value, ec)
+        if isinstance(e.value, ast.Call):
+            return self.ev(e.value, ec)
+        # awaiting an arbitrary awaitable value: any result, any Exception
+        self.ev(e.value, ec)
+        return self.opaque_effect(ec, e.lineno, "await of an awaitable value", pure=False)
+
+    def opaque_effect(self, ec, line, what, pure=False, raises_base=False):
+        """result and effects of running unknown code: fresh result, heap havocked (unless pure), may raise any Exception"""
+        if ec.guard and not pure:
+            raise OutOfSubset("conditional execution of unknown code inside an expression (line %d)" % line)
+        flag = fresh("unk_raises", BoolS)
+        c = fresh("exc_cls", IntS)
+        ec.assume(z3.Implies(flag, sub(c, cid("Exception"))))
+        ec.may_raise_exc(flag, Exc(c, None, line, "exception from %s" % what))
+        if not pure:
+            self.havoc_heap(ec.st, ["*"], {}, line, keep=self.ghost_refs(ec))
+        res = fresh("unk", V)
+        ec.st.assume(z3.Implies(is_ref(res), z3.And(V.rv(res) >= 0, V.rv(res) < ec.st.heap.alloc)))
+        self.assumptions.add("unknown code (%s): arbitrary result, arbitrary heap afterwards, may raise any Exception subclass "
+                             "(BaseException-only classes such as CancelledError/KeyboardInterrupt are outside every contract)" % what)
+        return tV(res)
 
     def ev_IfExp(self, e, ec):
         c = self.tb(self.ev(e.test, ec), ec)
@@ -1315,6 +1335,8 @@ class Engine:
                 return m(e, ec)
             if name in ec.st.env and ec.st.env[name].k == "fn":
                 return self.call_fn_value(ec.st.env[name], e, ec)
+            if name in ec.st.env and ec.st.env[name].k == "V":
+                return self.call_value(e, ec)
             return self.call_named(name, None, e, ec)
         if isinstance(f, ast.Attribute):
             dotted = self.dotted(f)
@@ -1323,7 +1345,13 @@ class Engine:
                 if m is not None:
                     return m(e, ec)
                 if dotted.split(".")[0] in ("log", "logging", "console", "warnings"):
-                    self.assumptions.add("A-LOG: logging/console calls have no effect and do not raise")
+                    self.assumptions.add("A-LOG: logging/console calls themselves have no effect and do not raise (their argument "
+                                         "expressions ARE evaluated and may raise)")
+                    for a in e.args:
+                        if not isinstance(a, ast.Starred):
+                            self.ev(a, ec)
+                    for k in e.keywords:
+                        self.ev(k.value, ec)
                     return tV(V.none)
             recv = self.ev(f.value, ec)
             m = getattr(self, "me_" + f.attr, None)
@@ -1335,10 +1363,10 @@ class Engine:
         raise OutOfSubset("call of a computed callee (line %d)" % e.lineno)
 
     def args_of(self, e, ec):
-        if any(isinstance(a, ast.Starred) for a in e.args) or any(k.arg is None for k in e.keywords):
-            raise OutOfSubset("*args/**kwargs at a call (line %d)" % e.lineno)
+        if any(isinstance(a, ast.Starred) for a in e.args):
+            raise OutOfSubset("*args at a call (line %d)" % e.lineno)
         args = [self.mat(self.ev(a, ec), ec) for a in e.args]
-        kwargs = {k.arg: self.mat(self.ev(k.value, ec), ec) for k in e.keywords}
+        kwargs = {(k.arg if k.arg is not None else "**"): self.mat(self.ev(k.value, ec), ec) for k in e.keywords}
         if not ec.spec:
             for x in args + list(kwargs.values()):
                 self.note_store(ec, x)
@@ -1843,6 +1871,38 @@ class Engine:
         return tV(V.ref(r))
 
     # -- library functions -----------------------------------------------------------------------
+    def _inspect_pred(self, name, e, ec):
+        v = toV(self.ev(e.args[0], ec))
+        f = z3.Function("inspect_" + name, V, BoolS)
+        self.assumptions.add("A-INSPECT: inspect.%s is an uninterpreted predicate of the value" % name)
+        return T("b", f(v))
+
+    def lib_inspect_isclass(self, e, ec): return self._inspect_pred("isclass", e, ec)
+    def lib_inspect_isfunction(self, e, ec): return self._inspect_pred("isfunction", e, ec)
+    def lib_inspect_ismethod(self, e, ec): return self._inspect_pred("ismethod", e, ec)
+    def lib_inspect_iscoroutine(self, e, ec): return self._inspect_pred("iscoroutine", e, ec)
+
+    def ev_DictComp(self, e, ec):
+        """{k: v for ... in xs if ...}: over-approximated as a fresh dict of arbitrary content (the iteration domain is
+        evaluated for its raise conditions; key/value/filter expressions are assumed total on the items)"""
+        if ec.spec or len(e.generators) != 1:
+            raise OutOfSubset("dict comprehension form (line %d)" % e.lineno)
+        self.iter_domain(e.generators[0].iter, ec, e.lineno)
+        self.assumptions.add("A-DICTCOMP: a dict comprehension yields a fresh dict of arbitrary content; its key/value/filter "
+                             "expressions are assumed not to raise")
+        r = self.new_ref(ec, "dict")
+        h = ec.st.heap
+        if self.is_vm(ec):
+            self._init_done(ec, r)
+            return tV(V.ref(r))
+        a2 = dict(h.a)
+        for nm in ("dhas", "dval", "dlen", "dkey", "didx"):
+            a2[nm] = z3.Store(h.a[nm], r, fresh(nm + "_dc", HEAP_SORTS[nm].range()))
+        h.a = a2
+        for f in dict_wf_at(h, r):
+            ec.st.assume(f)
+        return tV(V.ref(r))
+
     def lib_copy_deepcopy(self, e, ec):
         x = self.ev(e.args[0], ec)
         v = toV(x)
@@ -2119,6 +2179,17 @@ class Engine:
     def call_fn_value(self, f, e, ec):
         raise OutOfSubset("call of a function value (line %d)" % e.lineno)
 
+    def call_value(self, e, ec):
+        """call of a callable held in a variable (an action, a constructor, ...): unknown code"""
+        for a in e.args:
+            if isinstance(a, ast.Starred):
+                self.ev(a.value, ec)
+            else:
+                self.mat(self.ev(a, ec), ec)
+        for k in e.keywords:
+            self.mat(self.ev(k.value, ec), ec)
+        return self.opaque_effect(ec, e.lineno, "call of the callable `%s`" % ast.unparse(e.func)[:40])
+
     def call_named(self, name, recv, e, ec):
         c = self.resolve(name, recv)
         if c is not None:
@@ -2128,6 +2199,8 @@ class Engine:
         raise OutOfSubset("call of %s (line %d): no contract, not declared opaque" % (name, e.lineno))
 
     def bind_params(self, fsrc, recv, args, kwargs, ec, is_method):
+        if "**" in kwargs:
+            raise OutOfSubset("**kwargs at a call of a function under contract")
         a = fsrc.node.args
         names = [x.arg for x in a.posonlyargs + a.args]
         env = {}
@@ -2253,7 +2326,11 @@ class Engine:
         fx = getattr(ec, "fx", None)
         if fx is None:
             return []
-        return [V.rv(ec.st.env[g].t) for g in fx.contract.opts.get("ghost_lists", []) if g in ec.st.env]
+        names = list(fx.contract.opts.get("ghost_lists", [])) + list(fx.contract.opts.get("frame_keep", []))
+        if fx.contract.opts.get("frame_keep"):
+            self.assumptions.add("frame_keep: unknown code called by %s is assumed not to modify the object(s) %s themselves (shallow)" % (
+                fx.contract.func, fx.contract.opts["frame_keep"]))
+        return [V.rv(ec.st.env[g].t) for g in names if g in ec.st.env and ec.st.env[g].k == "V"]
 
     def havoc_heap(self, st, assigns, penv, line, keep=()):
         """assigns entries: '*' (everything) or names of parameters whose object (shallow) may change"""
